@@ -167,7 +167,12 @@ func verifHarness_C05_inline_closer_must() {
 	verifAssert(false, "witness")
 }
 
-func verifHarness_C05_goroutine_closer() {
+func verifHarness_C05_goroutine_closer_Q() {
+	verifC05(1, 2, 1, true, false, false, false, 1)
+	verifAssert(false, "witness")
+}
+
+func verifHarness_C05_goroutine_closer_T() {
 	verifC05(1, 2, 1, true, false, false, false, 2)
 	verifAssert(false, "witness")
 }
